@@ -52,6 +52,9 @@ pub const CONSTRUCTS: &[(&str, &str, &str)] = &[
     ("stmts-semi", "51", "local a = 1; f(); return a;\n"),
     ("call-3", "51", "register(handler, fallback, function() return 1 end)\n"),
     ("require-block", "51", "local b = require(\"b\")\nlocal a = require(\"a\")\n"),
+    ("table-trailing-sep", "51", "local t = { 1, 2, }\n"),
+    ("table-trailing-semi-named", "51", "local t = { a = 1; b = 2; }\n"),
+    ("call-table-trailing-sep", "51", "f({ \"a\", })\n"),
     ("goto-label", "52", "goto done ::done::\n"),
     ("attrib", "54", "local a <const>, b <close> = 1, 2\n"),
     ("luau-typed-local", "luau", "local x: number, y: string? = 1, nil\n"),
